@@ -905,6 +905,9 @@ def outer_inner(expr):
     return expr[0] + ('/' + i if i else '')
 
 
+# aspects whose failing site is the composition (timing/number of events);
+# the others (pairs, values, header, node ids, gate-off) belong to the event
+COMPOSITIONAL = ('time', 'count', 'total', 'exception', 'release')
 CONTEXTS = [(0, 'default', 0.0), (1.5, 'tempo', 0.2), (0, 'tempo', 0.2),
             (1.5, 'default', 0.0)]
 
@@ -926,7 +929,9 @@ def check_player(rep):
                 input={'pattern': enc(expr), 'start': ctx[0], 'clock': ctx[1],
                        'latency': ctx[2], 'proto': ctx[3]},
                 observed=what, expected='see vf/specs/events.timeline',
-                key=key or 'C14.player:%s:%s' % (outer_inner(expr), aspect),
+                key=key or ('C14.player:%s:%s' % (outer_inner(expr), aspect)
+                            if aspect.split(':')[0] in COMPOSITIONAL
+                            else 'C14.player:' + aspect),
                 replay={'func': 'player', 'args': enc((expr, ctx))})
 
     # canaries: defects that would otherwise mask everything below them
